@@ -8,7 +8,13 @@
 (***************************************************************************)
 EXTENDS MSStore
 
-CONSTANT FaultKinds     \* subset of {"NO", "BYE", "silence", "lost"}  (lost = done, reply never arrives)
+CONSTANT FaultKinds     \* subset of {"NO", "NOSTICKY", "BYE", "silence", "lost", "stall"}
+                        \* NOSTICKY = NO now and to every later command of the same verb (a quota that is
+                        \*         exhausted stays exhausted): the same to the reference client, which stops
+                        \*         at the first NO, but not to a client that retries or tries to undo
+                        \* lost  = the server acted, its reply never arrives
+                        \* stall = the server acted, its reply arrives in part, then nothing for longer than the
+                        \*         client's read timeout (the rest would come later): for the client a timeout
 
 \* -------------------------- reference client: emulated rename with faults
 VARIABLES st0, st, old, new, step, fault, got, res, log, body
@@ -30,8 +36,8 @@ Init == /\ st0 \in {s \in Stores : WF(s)} /\ st = st0
 \* one exchange: the server performs cmd unless a fault hits this step
 Exchange(at, cmd) ==
   IF fault.at = at THEN
-     [st |-> IF fault.kind = "lost" THEN Srv(st, cmd).st ELSE st,
-      status |-> IF fault.kind = "NO" THEN "NO" ELSE IF fault.kind = "BYE" THEN "BYE" ELSE "silence",
+     [st |-> IF fault.kind \in {"lost", "stall"} THEN Srv(st, cmd).st ELSE st,
+      status |-> IF fault.kind \in {"NO", "NOSTICKY"} THEN "NO" ELSE IF fault.kind = "BYE" THEN "BYE" ELSE "silence",
       data |-> <<>>]
   ELSE LET r == Srv(st, cmd) IN [st |-> r.st, status |-> r.reply.status, data |-> r.reply.data]
 
